@@ -604,3 +604,111 @@ def rule_R4c(ctx, rep, config="c-lib"):
         rep.ok("R4c", "symb_finish_adding_terms/extent", sample={"elements": repr(nel), "end-start": repr(ext)})
     else:
         rep.violation("R4c", "symb_finish_adding_terms/extent", "the vector has %r elements but the accepted code range end - start is %r" % (nel, ext), where=al[0].inst.where())
+
+
+def _alts(f, op, depth=0):
+    """linear forms an operand can take (phis expanded, multiplication of an expanded phi by a constant kept)"""
+    from ..expr import lin as _lin2
+    from ..model import strip_int_casts as _sic
+    i = f.inst(_sic(f, op))
+    if i is not None and depth < 4:
+        if i.op == "phi":
+            out = []
+            for (v, _) in i.d["incoming"]:
+                if v.get("k") == "undef":
+                    continue
+                out += _alts(f, v, depth + 1)
+            return out
+        if i.op == "mul" and const_int(i.ops[1]) is not None:
+            return [a.scale(const_int(i.ops[1])) for a in _alts(f, i.ops[0], depth + 1)]
+        if i.op == "add" and const_int(i.ops[1]) is not None:
+            from ..expr import Lin as _L
+            return [a.add(_L(const_int(i.ops[1]))) for a in _alts(f, i.ops[0], depth + 1)]
+    return [_lin2(f, op, 0, 1)]
+
+
+GROW_BY_ONE = {"vlo_array_expand": "the index is the number of elements in use; one element is appended at a time"}
+
+
+def rule_R4e(ctx, rep, config="c-lib"):
+    rep.rule("R4e", "a table that is grown on demand (`if (index is behind the end) VLO_EXPAND (table, amount)') is grown far enough for the index that was asked for: "
+                    "every value the amount can take depends on the index of the guard (linear forms over the same entities; phis expanded).  A growth by a fixed chunk "
+                    "leaves an index that jumped ahead -- a context, situation or core number kept in the grammar object from an earlier parse -- outside the table")
+    from ..expr import lin as _lin2, Lin as _L
+    from .r5 import _controlling_conditions
+    from .. import expr as _e
+    p = ctx.prog(config)
+    n = 0
+    _e.NAMED[0] = True
+    try:
+        for f in p.m.defined():
+            if f.module and not f.module.startswith("yaep."):
+                continue
+            for s in f.all_insts():
+                if s.op != "store":
+                    continue
+                pa = resolve_addr(f, s.ops[1])
+                if not (pa.last_field() or "").endswith("vlo_t.vlo_free"):
+                    continue
+                v = f.inst(strip_casts(f, s.ops[0]))
+                if v is None or v.op != "getelementptr":
+                    continue
+                base = _lin2(f, v.d["base"], 0, 1)
+                fa = [a for a in base.t if a.endswith("vlo_free]")]
+                if len(fa) != 1 or len(base.t) != 1 or len(v.d["path"]) != 1 or "ptr" not in v.d["path"][0]:
+                    continue
+                amt_op = v.d["path"][0]["ptr"]
+                # guard: a controlling condition that mentions this container's extent
+                cont = fa[0].split(".vlo_t.")[0]
+                guard = None
+                for (c, pol) in _controlling_conditions(f, s.block.name):
+                    a, b = _lin2(f, c.ops[0], 0, 1), _lin2(f, c.ops[1], 0, 1)
+                    atoms = set(a.t) | set(b.t)
+                    subs = " ".join(atoms)
+                    if cont + ".vlo_t.vlo_free" in subs or cont + ".vlo_t.vlo_start" in subs:
+                        guard = (c, pol, a, b)
+                        break
+                if guard is None:
+                    continue
+                c, pol, a, b = guard
+                idx_atoms = set()
+                for side in (a, b):
+                    for at in side.t:
+                        for piece in _pieces(at):
+                            if cont + ".vlo_t" not in piece:
+                                idx_atoms.add(piece)
+                if not idx_atoms:
+                    continue
+                n += 1
+                rep.cover(p, [f.name])
+                key = "%s/grow-%s#%d" % (f.name, cont.split("@")[-1].split("]")[0].replace("L[", ""), n)
+                alts = _alts(f, amt_op)
+                bad = [al for al in alts if not any(ia in " ".join(al.t) for ia in idx_atoms)]
+                stepwise = False
+                for L in f.loops():
+                    if s.block.name in L["body"]:
+                        t_ = f.bmap[L["header"]].term
+                        hc = f.inst(t_.ops[0]) if (t_ is not None and len(t_.ops) == 3) else None
+                        if hc is not None and hc.op == "icmp":
+                            hs = " ".join(list(_lin2(f, hc.ops[0], 0, 1).t) + list(_lin2(f, hc.ops[1], 0, 1).t))
+                            if any(ia in hs for ia in idx_atoms):
+                                stepwise = True
+                if bad and stepwise:
+                    rep.ok("R4e", key, sample={"growth": s.where(), "index": sorted(idx_atoms), "how": "element by element in a loop that runs up to the index"})
+                elif not bad:
+                    rep.ok("R4e", key, sample={"growth": s.where(), "index": sorted(idx_atoms), "amount": [repr(x) for x in alts][:3]})
+                elif f.name in GROW_BY_ONE and all(al.is_const() for al in alts):
+                    rep.ok("R4e", key, sample={"growth": s.where(), "exception": GROW_BY_ONE[f.name]})
+                else:
+                    rep.violation("R4e", key, "the table is grown by %s, which does not depend on the index that was found behind its end (%s): an index further ahead than one "
+                                  "chunk -- numbers kept from an earlier parse on the same object -- stays outside the table and the element access that follows runs past "
+                                  "it" % ([repr(x) for x in bad][:2], ", ".join(sorted(idx_atoms))), where=s.where(), witness=[c.where(), s.where()])
+    finally:
+        _e.NAMED[0] = False
+    rep.floor("R4e", "tables grown on demand", n, 4)
+
+
+def _pieces(atom):
+    """innermost named entities of an atom string such as div(L[x] + -1*L[y],16)"""
+    import re
+    return re.findall(r"L\[[^\[\]]*(?:\[[^\[\]]*\][^\[\]]*)*\]|\b[A-Za-z_][A-Za-z_0-9]*\b(?!\()", atom)
